@@ -484,7 +484,9 @@ def r5_fixtime(ctx):
             ix = un(d_ret, "idx")
             E = ix[1] if ix is not None else None
             ss = _outer_searches(E) if E is not None else []
-            rows.append({"path": p_, "t": t_ret, "d": d_ret, "E": E, "X": ix[0] if ix is not None else None, "ss": ss, "table": table, "back": back})
+            # an index that went through a function the engine did not follow (a callee held in a value, an unknown routine) is not a closed form over the search
+            opq = sorted({nm if nm == "apply" else nm[5:] for _v, nm, _a in find_atoms(E, lambda n, a: n == "apply" or (n.startswith("call:") and n[5:] not in S.KNOWN_CALLS))}) if E is not None else []
+            rows.append({"path": p_, "t": t_ret, "d": d_ret, "E": E, "X": ix[0] if ix is not None else None, "ss": ss if not opq else [], "table": table, "back": back, "opaque": opq})
         if not rows:
             ctx.error(f"{tag[hold, base]}: no path returns", fn)
             return
@@ -543,7 +545,7 @@ def r5_fixtime(ctx):
                 if not find_atoms(r["t"], lambda n, a: n == "call:np.arange") and not _und(r["t"]):
                     if r["E"] is None or not r["ss"]:
                         continue          # a path that returns without building a time base: judged by the selection obligation below
-                    bad.append({"returned time": _short(r["t"]), "consequence": "not built from np.arange: not a uniform time base"})
+                    (unk if S.unrecognised([r["t"]]) else bad).append({"returned time": _short(r["t"]), "consequence": "not built from np.arange: not a uniform time base"})
                 else:
                     unk.append(_short(r["t"]))
                 continue
@@ -553,7 +555,9 @@ def r5_fixtime(ctx):
             Lw = R.E("int(round((T[-1] - T[0]) * SR)) + 1", T=told_v, SR=sr_v)
             shift = rest - R.ev.mk_idx(told_v, F.const(0))
             rk = R.ev.rank(shift)
-            if not eq(Lv, Lw):
+            if S.unrecognised([r["t"]]):
+                unk.append({"time vector built with routines the checker does not know": S.unrecognised([r["t"]])[:4]})
+            elif not eq(Lv, Lw):
                 bad.append({"number of samples": _short(Lv), "expected": _short(Lw)})
             elif rk is None:
                 unk.append({"shift": _short(shift)})
@@ -587,6 +591,8 @@ def r5_fixtime(ctx):
                 te = told_expected(R, r)
                 if te is None:
                     unk2.append("the arrays of the time base are not identified")
+                elif (not eq(a_v, te) or not eq(v_v, r["t"])) and S.unrecognised([a_v, v_v, r["t"]]):
+                    unk2.append({"built with routines the checker does not know": S.unrecognised([a_v, v_v, r["t"]])[:4]})
                 elif not eq(a_v, te) or not eq(v_v, r["t"]):
                     bad2.append({"sorted array searched": _short(a_v, 200), "expected": _short(te, 200), "times searched for": _short(v_v, 200), "time vector returned": _short(r["t"], 200)})
                 ok, why = decide_index(r["E"], a_s, v_s, want, [x for x in [S._strsym(told_v)] if x])
@@ -598,6 +604,9 @@ def r5_fixtime(ctx):
                     unk3.append("the array indexed depends on the search")
                 continue
             # no search on this path
+            if r["opaque"]:
+                unk4.append({"the index goes through routines that are not followed": r["opaque"][:4]})
+                continue
             verdict, detail = judge_bypass(r)
             if verdict != "ok":
                 (bad4 if verdict == "bad" else unk4).append(detail)
@@ -668,6 +677,9 @@ def r5_fixtime(ctx):
             unk.append("the old time vector is not identified")
             continue
         if not r["ss"]:
+            if r["opaque"]:
+                unk.append({"the index goes through routines that are not followed": r["opaque"][:4]})
+                continue
             verdict, detail = judge_bypass(r)
             if verdict != "ok":
                 (bad if verdict == "bad" else unk).append(detail)
@@ -683,7 +695,9 @@ def r5_fixtime(ctx):
             continue
         sr_v = tb[0]
         want_shift = R.E("base - t0 - round((base - t0) * SR) / SR", t0=R.ev.mk_idx(v_v, F.const(0)), SR=sr_v)
-        if not eq(r["t"] - v_v, want_shift):
+        if S.unrecognised([r["t"], v_v, a_v]):
+            unk.append({"built with routines the checker does not know": S.unrecognised([r["t"], v_v, a_v])[:4]})
+        elif not eq(r["t"] - v_v, want_shift):
             bad.append({"time returned - time searched": _short(r["t"] - v_v), "expected": _short(want_shift)})
         elif not eq(a_v, told_v):
             bad.append({"sorted array searched": _short(a_v)})
